@@ -169,6 +169,10 @@ TEMPLATE_START_ONLY = {
 }
 
 
+DAILY_DIR = [["ph", "year"], ["lit", "-"], ["ph", "month"], ["lit", "-"],
+             ["ph", "day"]]
+
+
 def split_track(pset, cuts, start_only=False):
     """sort by time and cut; returns list of point sets (plain dicts)"""
     n = len(pset["id"])
@@ -194,11 +198,14 @@ def split_track(pset, cuts, start_only=False):
     return [p for _, p in merged]
 
 
-def write_fileset(root, pieces, name, broken_index=None, start_only=False):
+def write_fileset(root, pieces, name, broken_index=None, start_only=False,
+                  daily_dirs=False):
     from typhon.files import FileHandler, FileSet
     os.makedirs(root, exist_ok=True)
     specs, names = [], []
     template = TEMPLATE_START_ONLY if start_only else TEMPLATE
+    if daily_dirs:
+        template = dict(template, dirs=[DAILY_DIR])
     coverage = max(
         (ceil_s(p["t_ms"][-1]) - floor_s(p["t_ms"][0])).total_seconds()
         for p in pieces) if start_only else None
@@ -207,12 +214,13 @@ def write_fileset(root, pieces, name, broken_index=None, start_only=False):
         if start_only:
             e = s + dt.timedelta(seconds=coverage)
         rel = G.format_path(template, s, e, {}, "")
+        os.makedirs(os.path.dirname(os.path.join(root, rel)), exist_ok=True)
         piece = dict(piece)
         # unique labels in arbitrary (here: reversed) order
         piece["labels"] = list(range(len(piece["id"]) * 3, 0, -3))
         with open(os.path.join(root, rel), "wb") as fh:
             pickle.dump(piece, fh)
-        names.append(rel)
+        names.append(os.path.basename(rel))
         specs.append((s, e))
     broken = []
     if broken_index is not None and names:
@@ -295,6 +303,11 @@ def check_filesets(case, ctx):
                          split_track(sets[1], cuts[1], start_only[1])]
         if any(start_only):
             ctx.label("start-only-names+late-time_coverage")
+        if case.get("daily_dirs"):
+            ctx.label("daily-sub-directories")
+        days = {floor_s(t).date() for g in sets for t in g["t_ms"]}
+        if len(days) > 1:
+            ctx.label("data-crosses-midnight")
         reference_files = None
         for ci, cfg in enumerate(case["configs"]):
             pieces = splits[cfg["split"] % len(splits)]
@@ -305,7 +318,7 @@ def check_filesets(case, ctx):
                 fs, cov, bad = write_fileset(
                     os.path.join(root, names[f]), pieces[f], names[f],
                     broken[1] if broken and broken[0] == f else None,
-                    start_only[f])
+                    start_only[f], bool(case.get("daily_dirs")))
                 filesets.append(fs)
                 coverages.append(cov)
                 broken_names.append(bad)
@@ -477,6 +490,15 @@ def fileset_cases(draw):
     # then only the two results of ONE primary file with two partner files can
     # still collide (sequentially, in one worker), and concurrent writers never
     # share a name.
+    midnight = None
+    if draw(st.integers(0, 2)) == 0:
+        # move the data to midnight (BASE is noon): files then start before
+        # and reach beyond the change of the day
+        every = sorted(t for g in cloud["sets"] for t in g["t_ms"])
+        shift = 12 * 3600 * 1000 - every[len(every) // 2] // 1000 * 1000
+        for g in cloud["sets"]:
+            g["t_ms"] = [t + shift for t in g["t_ms"]]
+        midnight = 12 * 3600 * 1000
     used, unique = set(), []
     for t in cloud["sets"][0]["t_ms"]:
         while t in used:
@@ -524,9 +546,19 @@ def fileset_cases(draw):
             "split": draw(st.integers(0, 1)),
             "broken": broken})
     start_only = [draw(st.integers(0, 3)) == 0, draw(st.integers(0, 3)) == 0]
+    daily_dirs = draw(st.booleans())
+    if midnight is not None and draw(st.integers(0, 3)) > 0:
+        # focus on the change of the day: dated sub directories, a period that
+        # starts shortly after midnight (also after midnight + max_interval)
+        daily_dirs = True
+        start_only = [draw(st.booleans()), draw(st.booleans())]
+        period = {"start_ms": midnight + draw(st.sampled_from(
+            [0, 1000, (m_s + 1) * 1000, (2 * m_s + 5) * 1000])),
+            "end_ms": times[-1] + 60000 + 2 * 43200000}
     return {"cloud": cloud, "max_distance": radius, "max_interval_s": m_s,
             "splits": splits, "period": period, "configs": configs,
             "start_only": start_only,
+            "daily_dirs": daily_dirs,
             "shuffle": draw(P.shuffle_rules())}
 
 
